@@ -126,7 +126,7 @@ func init() {
 				}
 				// queries: no rebuild needed
 				ok := true
-				for _, p := range paths {
+				for pi, p := range paths {
 					for _, q := range c04Queries {
 						sr := l.stepQuery(fsx.Op{K: q, P: p})
 						l.report(0o022, sr, false)
@@ -137,6 +137,15 @@ func init() {
 					}
 					if !ok {
 						break
+					}
+					// EvalSymlinks resolves ".." against what the link before it leads to, not lexically (the one call whose
+					// answer for a path is not that of its Clean() form): dot-dot, dot and further names after every path
+					if (pi+gi)%3 == 0 {
+						for _, tail := range []string{"/..", "/../f", "/../d/m", "/.", "/../l1", "/../../w/f"} {
+							sr := l.stepQuery(fsx.Op{K: "EvalSymlinks", P: p + tail})
+							sr.sig = "dotdot|" + sr.sig
+							l.report(0o022, sr, false)
+						}
 					}
 				}
 				// mutations: a few per graph, each on a freshly rebuilt graph
